@@ -58,7 +58,7 @@ ASSUMPTIONS = [
     'numpy argsort keeps first-index order for equal keys on arrays shorter than 17 elements; vector '
     'columns inside a group of equal real parts are compared only when the choice does not matter',
     'mmwrite(precision=20)/mmread, savetxt/loadtxt, pickle and csv are exact on the values written '
-    '(observed on every case of the saveload section, a parameter of theorem load_save_config)',
+    '(observed on every case of the saveload section, a parameter of theorem load_save_config_partial; full statement: def C16_load_save_full)',
     'the trimming stage and the builders are parameters of the model: the driver is handed the kept '
     'states observed from trim_disconnected and uses exact rational row-normalisation for '
     'normalize/transpose; the mle builder is compared on counts and mapping only',
